@@ -4,17 +4,57 @@
 // compiled only under the build tag "verif").
 package path
 
-// idxpath(p, prefix): the index form of p as a mathematical sequence. Path
-// messages are treated as immutable while indexed (no function under contract
-// writes a field of gpb.Path or gpb.PathElem).
+// ---- the index form of a path as a mathematical sequence -----------------
+// Path and PathElem messages are treated as immutable while indexed (no
+// function under contract writes a field of gpb.Path or gpb.PathElem).
+
+// kvseq(dom, vals): the values of a key map in the order of their key names.
+//@ spec kvseq(set[string], gmap[string]string) seq[string]
+// kvs(e): what an element contributes after its name: nothing without keys, the
+// single value for one key, the values in key-name order otherwise.
+//@ spec kvs(*gpb.PathElem) seq[string]
+//@ axiom len(kvs(nil)) == 0
+//@ axiom forall e *gpb.PathElem :: e != nil && len(e.Key) == 0 ==> len(kvs(e)) == 0
+//@ axiom forall e *gpb.PathElem :: e != nil && len(e.Key) == 1 ==> len(kvs(e)) == 1 && (forall k string :: has(e.Key, k) ==> kvs(e)[0] == e.Key[k])
+//@ axiom forall e *gpb.PathElem :: e != nil && len(e.Key) >= 2 ==> kvs(e) == kvseq(dom(e.Key), vals(e.Key))
+//@ pred EName(e *gpb.PathElem) := ite(e == nil, "", e.Name)
+
+// flat(p, i): the index strings of the first i elements.
+//@ spec flat(*gpb.Path, int) seq[string]
+//@ axiom forall p *gpb.Path :: len(flat(p, 0)) == 0
+//@ axiom forall p *gpb.Path, i int :: p != nil && 0 <= i && i < len(p.Elem) ==> flat(p, i+1) == flat(p, i) ++ (unit(EName(p.Elem[i])) ++ kvs(p.Elem[i]))
+
+// Target and origin lead only when requested and non-empty.
+//@ pred Lead(p *gpb.Path, prefix bool) := ite(prefix && p.Target != "", unit(p.Target), emptyseq("string")) ++ ite(prefix && p.Origin != "", unit(p.Origin), emptyseq("string"))
+
 //@ spec idxpath(*gpb.Path, bool) seq[string]
 //@ axiom forall b bool :: len(idxpath(nil, b)) == 0
+//@ axiom forall p *gpb.Path, b bool :: p != nil && len(p.Elem) == 0 ==> idxpath(p, b) == Lead(p, b) ++ view(p.Element)
+//@ axiom forall p *gpb.Path, b bool :: p != nil && len(p.Elem) > 0 ==> idxpath(p, b) == Lead(p, b) ++ flat(p, len(p.Elem))
 
+// ToStrings returns exactly idxpath(p, prefix): a function of the path's
+// content, hence deterministic and independent of map iteration order.
 //@ func ToStrings
 //@   props C19 C12
-//@   trusted functional postcondition not yet proved against the body (see C19)
-//@   ensures view(res0) == idxpath(p, prefix) && res0 != nil && fresh(res0)
-//@   ensures [target-leads] prefix && p != nil && p.Target != "" ==> len(res0) >= 1 && res0[0] == p.Target
+//@   allocates none
+//@   invariant 0: view(is) == Lead(p, prefix) ++ flat(p, $i) && 0 <= $i && $i <= len(p.Elem) && p != nil && fresh(is)
+//@   invariant 1: p != nil && 0 <= $i0 && $i0 < len(p.Elem) && fresh(is) && e == p.Elem[$i0] && e != nil && len(e.Key) == 1 && keys == e.Key
+//@     && ((len($visited) == 0 && view(is) == (Lead(p, prefix) ++ flat(p, $i0)) ++ unit(EName(e)))
+//@      || ((forall k string :: has(keys, k) ==> $visited[k]) && view(is) == ((Lead(p, prefix) ++ flat(p, $i0)) ++ unit(EName(e))) ++ kvs(e)))
+//@   ensures [is-the-index-form C19] view(res0) == idxpath(p, prefix)
+//@   ensures res0 != nil && fresh(res0)
+//@   ensures [target-leads C19] prefix && p != nil && p.Target != "" ==> len(res0) >= 1 && res0[0] == p.Target
+
+// sortedVals: the values in key-name order (a function of the map's content).
+//@ func sortedVals
+//@   props C19 C12
+//@   allocates none
+//@   ensures-trusted view(res0) == kvseq(dom(m), vals(m))
+//@   note that sort.Strings orders the collected keys (and hence the result is kvseq) is assumed; what is proved: the keys are collected from m, sort.Strings is what orders them, one value per key is emitted
+//@   invariant 0: fresh(ks) && len(ks) == len($visited) && len(ks) <= len(m)
+//@   invariant 1: fresh(vs) && fresh(ks) && len(vs) == $i && 0 <= $i && $i <= len(ks) && arr(vs) != arr(ks)
+//@   assert at call sort.Strings#0: [keys-ordered-by-plain-string-order C19] arg0 == ks
+//@   ensures [one-value-per-key C19] fresh(res0)
 
 //@ pred OriginOf(p *gpb.Path) := ite(p == nil, "", p.Origin)
 
